@@ -159,23 +159,46 @@ def _untie_ambiguous(ps):
 
 
 @st.composite
+def group_tree(draw, n):
+    """Any nesting of part groups over parts 0..n-1 in order: groups before, between and after plain
+    parts, sibling groups, groups inside groups (every group gets its own number)."""
+    counter = [0]
+
+    def level(lo, hi, depth):
+        out = []
+        i = lo
+        while i < hi:
+            j = draw(st.integers(i + 1, hi))
+            # a group over parts i..j-1, or the plain part i
+            if depth < 3 and (j - i >= 2 or draw(st.integers(0, 3)) == 0) and not (depth > 0 and (i, j) == (lo, hi) and draw(st.booleans())):
+                counter[0] += 1
+                node = {"symbol": draw(st.sampled_from(["bracket", "brace", "line", None])), "name": "G%d" % counter[0], "number": counter[0]}
+                node["children"] = level(i, j, depth + 1)
+                out.append(node)
+                i = j
+            else:
+                out.append(i)
+                i += 1
+        return out
+
+    tree = level(0, n, 0)
+    return None if all(isinstance(x, int) for x in tree) else tree
+
+
+@st.composite
 def score_spec(draw, tier):
     prof = dict(PROFILE)
     if tier == "thorough":
         prof["max_bars"] = 5
         prof["max_voices"] = 3
-    n = draw(st.sampled_from([1, 1, 2, 3]))
+    n = draw(st.sampled_from([1, 1, 2, 2, 3, 3, 4]))
     parts = []
     for i in range(n):
         ps = draw(G.part_spec(prof, pid="P%d" % (i + 1), note_prefix="p%dn" % i))
         parts.append(draw(decorate(ps, "p%d" % i)))
     groups = None
-    if n >= 2:
-        gk = draw(st.sampled_from(["none", "all", "nested"] if n == 3 else ["none", "all"]))
-        if gk == "all":
-            groups = [{"symbol": "bracket", "name": "Strings", "number": 1, "children": list(range(n))}]
-        elif gk == "nested":
-            groups = [{"symbol": "bracket", "name": "All", "number": 1, "children": [0, {"symbol": "brace", "name": "Inner", "number": 2, "children": [1, 2]}]}]
+    if n >= 2 and draw(st.integers(0, 3)) > 0:
+        groups = draw(group_tree(n))
     return {"parts": parts, "groups": groups}
 
 
